@@ -483,22 +483,77 @@ func elemSortOfArr(arr string) string {
 	panic("not an array sort: " + arr)
 }
 
-func Select(a, i *Term) *Term {
-	// read-over-write simplification for syntactically equal / distinct literal indices
-	for a.Op == "store" {
-		if a.Args[1].String() == i.String() {
-			return a.Args[2]
+// defOf maps the name of a defined constant to its defining term (reset per
+// function); belowBase holds terms known to be smaller than every fresh
+// reference (parameters and other memory that existed at entry). Both let
+// Select resolve reads over store chains at generation time.
+var defOf = map[string]*Term{}
+var belowBase = map[string]bool{}
+var baseAllocName = "alloc@0"
+
+func resetTermTables() {
+	defOf = map[string]*Term{}
+	belowBase = map[string]bool{}
+}
+
+// distinctTerms: provably different integer terms (syntactic, sound).
+func distinctTerms(a, b *Term) bool {
+	d := linOf(App("-", SInt, a, b))
+	if len(d.atoms) == 0 {
+		return d.c.Sign() != 0
+	}
+	// fresh reference (alloc@0 + c, c >= 0) versus memory that existed at entry
+	isFresh := func(t *Term) bool {
+		l := linOf(t)
+		if len(l.atoms) != 1 || l.c.Sign() < 0 {
+			return false
 		}
-		iv, ok1 := i.IntVal()
-		jv, ok2 := a.Args[1].IntVal()
-		if ok1 && ok2 && iv.Cmp(jv) != 0 {
-			a = a.Args[0]
+		c, ok := l.atoms[baseAllocName]
+		return ok && c.Cmp(big.NewInt(1)) == 0
+	}
+	if (isFresh(a) && belowBase[b.String()]) || (isFresh(b) && belowBase[a.String()]) {
+		return true
+	}
+	return false
+}
+
+func Select(a, i *Term) *Term {
+	// read-over-write resolution through store chains and defined constants.
+	// named is the outermost term we may still use as the array if resolution
+	// stops: a constant, or the original term when it is not a constant.
+	cur := a
+	named := a
+	for depth := 0; depth < 64; depth++ {
+		if cur.Op == "var" {
+			named = cur
+			if d, ok := defOf[cur.Name]; ok {
+				cur = d
+				continue
+			}
+			break
+		}
+		if cur.Op != "store" {
+			break
+		}
+		if cur.Args[1].String() == i.String() {
+			return cur.Args[2]
+		}
+		if distinctTerms(cur.Args[1], i) {
+			cur = cur.Args[0]
+			if named.Op != "var" || defOf[named.Name] == nil {
+				named = cur
+			} else {
+				// we are inside the definition of `named`; once we step below the
+				// store, the remaining array is cur itself
+				named = cur
+			}
 			continue
 		}
 		break
 	}
-	return App("select", elemSortOfArr(a.Sort), a, i)
+	return App("select", elemSortOfArr(named.Sort), named, i)
 }
+
 func Store(a, i, v *Term) *Term { return App("store", a.Sort, a, i, v) }
 
 // slices
@@ -713,9 +768,60 @@ func MkQuant(forall bool, k *Term, lo, hi, body *Term) *Term {
 		hi = Add(hi, bt)
 		bv = K
 	}
-	// patterns: selects indexed by bv + const
+	rng := And(Le(lo, bv), Lt(bv, hi))
+	if !forall {
+		pats := simplePatterns(body, bv)
+		return Exists([]*Term{bv}, And(rng, body), pats...)
+	}
+	// forall distributes over conjunction: one quantifier per conjunct, each
+	// with its own (most specific) triggers. This avoids matching loops through
+	// nested indexing such as rep[ds[x]] / ds[rep[x]].
+	var parts []*Term
+	splitConj(body, nil, &parts)
+	var out []*Term
+	for _, part := range parts {
+		pats := nestedPatterns(part, bv)
+		if len(pats) == 0 {
+			pats = simplePatterns(part, bv)
+		}
+		if len(pats) == 0 {
+			// value-quantified: no array index to trigger on. Guard with the
+			// always-true predicate trig (axiom: forall x. trig(x)) and use it as
+			// the pattern, so that skolem witnesses of goals instantiate hypotheses.
+			tr := App("trig", SBool, bv)
+			out = append(out, Forall([]*Term{bv}, Implies(And(tr, rng), part), []*Term{tr}))
+			continue
+		}
+		out = append(out, Forall([]*Term{bv}, Implies(rng, part), pats...))
+	}
+	return And(out...)
+}
+
+// splitConj flattens body into conjuncts, pushing implications inward:
+// g => (a && b) becomes (g => a), (g => b).
+func splitConj(t *Term, guards []*Term, out *[]*Term) {
+	switch t.Op {
+	case "and":
+		for _, a := range t.Args {
+			splitConj(a, guards, out)
+		}
+		return
+	case "=>":
+		splitConj(t.Args[1], append(append([]*Term{}, guards...), t.Args[0]), out)
+		return
+	}
+	if len(guards) == 0 {
+		*out = append(*out, t)
+		return
+	}
+	*out = append(*out, Implies(And(guards...), t))
+}
+
+// simplePatterns: selects indexed by bv + const.
+func simplePatterns(body, bv *Term) [][]*Term {
+	one := big.NewInt(1)
 	var pats [][]*Term
-	sels = sels[:0]
+	var sels []*Term
 	collectSelects(body, bv.Name, &sels)
 	seen := map[string]bool{}
 	for _, s := range sels {
@@ -734,18 +840,38 @@ func MkQuant(forall bool, k *Term, lo, hi, body *Term) *Term {
 			pats = append(pats, []*Term{s})
 		}
 	}
-	rng := And(Le(lo, bv), Lt(bv, hi))
-	if forall && len(pats) == 0 {
-		// value-quantified: no array index to trigger on. Guard with the
-		// always-true predicate trig (axiom: forall x. trig(x)) and use it as
-		// the pattern, so that skolem witnesses of goals instantiate hypotheses.
-		tr := App("trig", SBool, bv)
-		return Forall([]*Term{bv}, Implies(And(tr, rng), body), []*Term{tr})
+	return pats
+}
+
+// nestedPatterns: outermost selects whose index contains another select on bv
+// (e.g. rep[ds[x]]); such a fact is only instantiated where the nested term
+// already occurs, which is what breaks matching loops.
+func nestedPatterns(body, bv *Term) [][]*Term {
+	var pats [][]*Term
+	seen := map[string]bool{}
+	var rec func(t *Term, inQuant bool)
+	rec = func(t *Term, inQuant bool) {
+		if t.Op == "forall" || t.Op == "exists" {
+			return // do not take triggers from inside inner quantifiers
+		}
+		if t.Op == "select" && Mentions(t.Args[1], bv.Name) {
+			var inner []*Term
+			collectSelects(t.Args[1], bv.Name, &inner)
+			if len(inner) > 0 && onlyBound(t, bv.Name) {
+				key := t.String()
+				if !seen[key] {
+					seen[key] = true
+					pats = append(pats, []*Term{t})
+				}
+				return
+			}
+		}
+		for _, a := range t.Args {
+			rec(a, inQuant)
+		}
 	}
-	if forall {
-		return Forall([]*Term{bv}, Implies(rng, body), pats...)
-	}
-	return Exists([]*Term{bv}, And(rng, body), pats...)
+	rec(body, false)
+	return pats
 }
 
 func onlyBound(t *Term, name string) bool {
